@@ -43,6 +43,12 @@ const (
 	// underlying hierarchical deterministic key derivation.
 	MaxAddressesPerAccount = hdkeychain.HardenedKeyStart - 1
 
+	// MaxImportedChildNum is the highest external/internal child number
+	// accepted with an imported wallet. Every index below the given one is
+	// derived, looked up and kept in memory while the database is locked, so
+	// an unbounded value (a request field) would stall the wallet for days.
+	MaxImportedChildNum = 1 << 20
+
 	// ExternalBranch is the child number to use when performing BIP0044
 	// style hierarchical deterministic key derivation for the external
 	// branch.
@@ -1130,6 +1136,10 @@ func (km *KeystoreManager) ImportKeystore(dbTransaction db.DBTransaction, checkf
 		return nil, ErrAccountType
 	}
 
+	if kStore.HDpath.ExternalChildNum > MaxImportedChildNum || kStore.HDpath.InternalChildNum > MaxImportedChildNum {
+		return nil, ErrExceedAllowedNumberPerAccount
+	}
+
 	if kStore.HDpath.ExternalChildNum == 0 {
 		kStore.HDpath.ExternalChildNum = 1
 	}
@@ -1156,6 +1166,10 @@ func (km *KeystoreManager) ImportKeystoreWithMnemonic(dbTransaction db.DBTransac
 
 	km.mu.Lock()
 	defer km.mu.Unlock()
+
+	if walletParams.ExternalIndex > MaxImportedChildNum || walletParams.InternalIndex > MaxImportedChildNum {
+		return nil, ErrExceedAllowedNumberPerAccount
+	}
 
 	entropy, err := EntropyFromMnemonic(walletParams.Mnemonic)
 	if err != nil {
